@@ -444,6 +444,8 @@ impl CircuitBuilder {
     }
 
     fn push_gate(&mut self, gate: BuilderGate) -> GateIndex {
+        #[cfg(feature = "verif_hooks")]
+        crate::verif_hooks::check_gate_limit(self.gates.len());
         self.gates.push(gate);
         let gate_idx = self.gate_counter;
         self.gate_counter += 1;
